@@ -1068,15 +1068,17 @@ func (self *Admin) commandHandleClientListCommand(serverProtocol *TextServerProt
 	infos := make([]string, 0)
 	for _, stream := range self.server.GetStreams() {
 		protocolName, clientId, commandCount := "", [16]byte{}, uint64(0)
-		if stream.protocol != nil {
-			switch stream.protocol.(type) {
+		if streamProtocol := stream.protocol; streamProtocol != nil {
+			switch streamProtocol.(type) {
 			case *BinaryServerProtocol:
-				binaryProtocol := stream.protocol.(*BinaryServerProtocol)
+				binaryProtocol := streamProtocol.(*BinaryServerProtocol)
 				protocolName = "binary"
-				clientId = binaryProtocol.proxys[0].clientId
+				if proxys := binaryProtocol.proxys; len(proxys) > 0 && proxys[0] != nil {
+					clientId = proxys[0].clientId
+				}
 				commandCount += binaryProtocol.totalCommandCount
 			case *TextServerProtocol:
-				textProtocol := stream.protocol.(*TextServerProtocol)
+				textProtocol := streamProtocol.(*TextServerProtocol)
 				protocolName = "text"
 				commandCount += textProtocol.totalCommandCount
 			}
